@@ -79,6 +79,10 @@ pub fn recv(&mut self, stop_timer: &mut Option<Timer>, env: &mut Env) -> (r: Opt
         (*old(stop_timer)) is None ==> (*final(stop_timer)) is None, // OBL:C06.recv.never_arms
         // bounded wait: with an armed timer the call returns no later than the deadline (or at once if it already passed)
         (*old(stop_timer)) is Some ==> final(env).now@ <= (if old(env).now@ >= (*old(stop_timer))->Some_0.until.t { old(env).now@ } else { (*old(stop_timer))->Some_0.until.t }) || (*final(stop_timer)) is Some, // OBL:C06.recv.kill_at_expiry
+        // while the timer stays armed only urgent or high-priority messages are handed out (given what the Job methods send with those priorities)
+        senders_ok(old(env).urgent@, old(env).high@) && (*final(stop_timer)) is Some && r is Some ==> urgent_class(r->Some_0.control) || high_class(r->Some_0.control), // OBL:C06.recv.only_urgent_or_high_while_armed
+        senders_kept(old(env), final(env)),
+        final(env).now@ >= old(env).now@,
         // ---- ordering (C10), over the queue contents at entry ----
         !timer_expired(*old(stop_timer), old(env).now@) && old(env).urgent@.len() > 0 && (*final(stop_timer)) == (*old(stop_timer)) ==>
             r is Some && r->Some_0 == old(env).urgent@[0], // OBL:C10.recv.urgent_first
@@ -106,7 +110,7 @@ pub fn spawn(&mut self, command: ArcCommand, mut spawnable: Spawnable, env: &mut
             && running_cid(cs_view(final(self))) == spawn_cid(at(old(env), final(env), 0))
             && final(env).live@ =~= old(env).live@.insert(running_cid(cs_view(final(self)))), // OBL:C04.spawn.owns_the_new_child
         !(*old(self) is Running) && r is Err ==> !spawn_ok(at(old(env), final(env), 0)) && *final(self) == *old(self) && final(env).live == old(env).live, // OBL:C04.spawn.failure_leaves_state
-        final(env).raised == old(env).raised, final(env).now@ >= old(env).now@,
+        final(env).raised == old(env).raised, final(env).now@ >= old(env).now@, senders_kept(old(env), final(env)),
 //@ item CommandState::reset
 //@ header
 pub fn reset(&mut self, env: &mut Env) -> (r: Self)
@@ -114,7 +118,7 @@ pub fn reset(&mut self, env: &mut Env) -> (r: Self)
     ensures
         *final(self) is Pending, // OBL:C09.reset.pending_after
         cs_view(&r) == cs_view(old(self)), // OBL:C09.reset.returns_the_retired_state
-        same_world(old(env), final(env)), final(env).now == old(env).now,
+        same_world(old(env), final(env)), final(env).now == old(env).now, senders_kept(old(env), final(env)),
 //@ item CommandState::wait
 //@ header
 pub fn wait(&mut self, env: &mut Env) -> (r: Result<bool, IoError>)
@@ -124,7 +128,7 @@ pub fn wait(&mut self, env: &mut Env) -> (r: Result<bool, IoError>)
         *old(self) is Running && r is Ok ==> r == Ok::<bool, IoError>(true) && *final(self) is Finished && started_of(cs_view(final(self))) == started_of(cs_view(old(self)))
             && final(env).live@ =~= old(env).live@.remove(running_cid(cs_view(old(self)))), // OBL:C04.wait.finished_only_after_reap
         *old(self) is Running && r is Err ==> *final(self) == *old(self) && final(env).live == old(env).live, // OBL:C04.wait.failure_keeps_running
-        final(env).raised == old(env).raised, final(env).now@ >= old(env).now@,
+        final(env).raised == old(env).raised, final(env).now@ >= old(env).now@, senders_kept(old(env), final(env)),
 //@ item signal_child
 //@ header
 fn signal_child(signal: Signal, child: &mut Child, env: &mut Env) -> (r: Result<(), IoError>)
@@ -132,7 +136,7 @@ fn signal_child(signal: Signal, child: &mut Child, env: &mut Env) -> (r: Result<
         final(child).cid == old(child).cid,
         // exactly one signal, the requested one or SIGTERM if it has no OS number; never a kill
         pushed1(old(env), final(env)) && is_signal(at(old(env), final(env), 0), old(child).cid, delivered(signal), r is Ok), // OBL:C06+C09.signal_child.requested_signal_or_sigterm
-        final(env).live == old(env).live, final(env).raised == old(env).raised, final(env).now@ >= old(env).now@,
+        final(env).live == old(env).live, final(env).raised == old(env).raised, final(env).now@ >= old(env).now@, senders_kept(old(env), final(env)), senders_kept(old(env), final(env)),
 //@ prologue
 broadcast use axiom_terminate_to_nix;
 //@ closure 0
@@ -144,7 +148,7 @@ broadcast use axiom_terminate_to_nix;
 //@ def ENVS old(env), final(env)
 //@ def STATE_PARAMS command: &ArcCommand, command_state: &mut CommandState, previous_run: &mut Option<CommandState>, stop_timer: &mut Option<Timer>, on_end: &mut Vec<Flag>, on_end_restart: &mut Option<Flag>, error_handler: &mut ErrorHandler, spawn_hook: &mut SpawnHook, env: &mut Env
 //@ def RAISE_LOOP_PRE let ghost vx_l = *env; let ghost vx_oe = on_end@;
-//@ def INV_SM invariant env.live == vx_l.live, env.log == vx_l.log, env.now == vx_l.now, vx_it.seq() == vx_oe, 0 <= vx_it.index@ <= vx_oe.len(), env.raised@ =~= vx_l.raised@.union(prefix_ids(vx_oe, vx_it.index@ as int)),
+//@ def INV_SM invariant env.live == vx_l.live, env.urgent == vx_l.urgent, env.high == vx_l.high, env.log == vx_l.log, env.now == vx_l.now, vx_it.seq() == vx_oe, 0 <= vx_it.index@ <= vx_oe.len(), env.raised@ =~= vx_l.raised@.union(prefix_ids(vx_oe, vx_it.index@ as int)),
 
 //@ def ARMED_PRE *old(stop_timer) is Some ==> control is Stop || control is Delete || control is NextEnding
 //@ def CH_PARAMS control: Control, done: Flag, $STATE_PARAMS
@@ -152,7 +156,7 @@ broadcast use axiom_terminate_to_nix;
 
 // ---- the control handler (select arm 2 of start_job) is verified once per control (group): `requires control is X` selects the
 // arm, every clause is proved for each group, and lemma_control_groups_cover shows the groups are exhaustive. Same extracted body every time.
-//@ defblock CH_CONTRACT
+//@ defblock CH_REQ
         inv_live(&*old(command_state), old(env)),
         // while a grace timer is armed `recv` hands out only the timer's own control (disarming it) or urgent/high messages
         // (C06.recv.normal_held_back_while_armed), and the Job API sends only Stop/Delete as urgent and NextEnding as high (C10.job.*)
@@ -161,7 +165,8 @@ broadcast use axiom_terminate_to_nix;
         // that timer's own control, just handed out by `recv` (C06+C07.recv.timer_control_carries_flag_and_kind)
         inv_restart(*old(stop_timer), *old(on_end_restart), old(env))
             || (control is ContinueTryGracefulRestart && *old(stop_timer) is None && *old(on_end_restart) is Some && (*old(on_end_restart))->Some_0.id == done.id),
-    ensures
+//@ enddef
+//@ defblock CH_ENS
         // ---- C04 ----
         inv_live(&*final(command_state), final(env)), // OBL:C04.control_handler.at_most_one_live_child
         // ---- C07: tickets ----
@@ -193,7 +198,12 @@ broadcast use axiom_terminate_to_nix;
         control is SetSyncErrorHandler ==> c09_set_hooks($OV, $FV, $ENVS, ErrorHandler::Sync(control->SetSyncErrorHandler_0), $OV.sh) && r is Normally, // OBL:C09.control.set_sync_error_handler
         control is SetAsyncErrorHandler ==> c09_set_hooks($OV, $FV, $ENVS, ErrorHandler::Async(control->SetAsyncErrorHandler_0), $OV.sh) && r is Normally, // OBL:C09.control.set_async_error_handler
         control is UnsetErrorHandler ==> c09_set_hooks($OV, $FV, $ENVS, ErrorHandler::None, $OV.sh) && r is Normally, // OBL:C09.control.unset_error_handler
-        final(env).now@ >= old(env).now@,
+        final(env).now@ >= old(env).now@, senders_kept(old(env), final(env)),
+//@ enddef
+//@ defblock CH_CONTRACT
+$CH_REQ
+    ensures
+$CH_ENS
 //@ prologue
 broadcast use lemma_all_ids_push;
 $LOOPS3
@@ -305,7 +315,7 @@ fn wait_handler($STATE_PARAMS) -> (r: Loop)
             || (reaped_in($ENVS, cs_view(&*old(command_state))) && parked(f, *old(stop_timer), old(on_end)@, *old(on_end_restart))), // OBL:C09.wait_handler.no_early_resolution
         c09_child_ended($OV, $FV, $ENVS, command, r is Skip), // OBL:C06+C07+C09.wait_handler.child_ended
         !(r is Break), // OBL:C09.wait_handler.never_ends_the_job
-        final(env).now@ >= old(env).now@,
+        final(env).now@ >= old(env).now@, senders_kept(old(env), final(env)),
 //@ prologue
 broadcast use lemma_all_ids_push;
 //@ loop 0 iter=vx_it
@@ -418,6 +428,56 @@ pub fn to_wait(&self, env: &mut Env) -> (r: Ticket)
     requires wf_tx(&self.control_queue),
     ensures
         job_sends(self, $ENVS, priority_high(), seq![Control::NextEnding], r), // OBL:C10.job_to_wait.sends_exactly
+
+// ---- proof glue: the control handler's contract holds for EVERY control (case split over the per-group instances above) ----
+//@ item control_arm
+//@ raw
+fn control_arm($CH_PARAMS) -> (r: Loop)
+    requires
+$CH_REQ
+    ensures
+$CH_ENS
+{
+    match control {
+        Control::Start => control_handler_start(Control::Start, done, command, command_state, previous_run, stop_timer, on_end, on_end_restart, error_handler, spawn_hook, env),
+        Control::Stop => control_handler_stop(Control::Stop, done, command, command_state, previous_run, stop_timer, on_end, on_end_restart, error_handler, spawn_hook, env),
+        Control::GracefulStop { signal, grace } => control_handler_graceful_stop(Control::GracefulStop { signal, grace }, done, command, command_state, previous_run, stop_timer, on_end, on_end_restart, error_handler, spawn_hook, env),
+        Control::TryRestart => control_handler_try_restart(Control::TryRestart, done, command, command_state, previous_run, stop_timer, on_end, on_end_restart, error_handler, spawn_hook, env),
+        Control::TryGracefulRestart { signal, grace } => control_handler_try_graceful_restart(Control::TryGracefulRestart { signal, grace }, done, command, command_state, previous_run, stop_timer, on_end, on_end_restart, error_handler, spawn_hook, env),
+        Control::ContinueTryGracefulRestart => control_handler_continue(Control::ContinueTryGracefulRestart, done, command, command_state, previous_run, stop_timer, on_end, on_end_restart, error_handler, spawn_hook, env),
+        Control::Signal(s) => control_handler_signal(Control::Signal(s), done, command, command_state, previous_run, stop_timer, on_end, on_end_restart, error_handler, spawn_hook, env),
+        Control::Delete => control_handler_delete(Control::Delete, done, command, command_state, previous_run, stop_timer, on_end, on_end_restart, error_handler, spawn_hook, env),
+        Control::NextEnding => control_handler_next_ending(Control::NextEnding, done, command, command_state, previous_run, stop_timer, on_end, on_end_restart, error_handler, spawn_hook, env),
+        Control::SyncFunc(f) => control_handler_func(Control::SyncFunc(f), done, command, command_state, previous_run, stop_timer, on_end, on_end_restart, error_handler, spawn_hook, env),
+        Control::AsyncFunc(f) => control_handler_func(Control::AsyncFunc(f), done, command, command_state, previous_run, stop_timer, on_end, on_end_restart, error_handler, spawn_hook, env),
+        Control::SetSyncSpawnHook(f) => control_handler_hooks(Control::SetSyncSpawnHook(f), done, command, command_state, previous_run, stop_timer, on_end, on_end_restart, error_handler, spawn_hook, env),
+        Control::SetAsyncSpawnHook(f) => control_handler_hooks(Control::SetAsyncSpawnHook(f), done, command, command_state, previous_run, stop_timer, on_end, on_end_restart, error_handler, spawn_hook, env),
+        Control::UnsetSpawnHook => control_handler_hooks(Control::UnsetSpawnHook, done, command, command_state, previous_run, stop_timer, on_end, on_end_restart, error_handler, spawn_hook, env),
+        Control::SetSyncErrorHandler(f) => control_handler_hooks(Control::SetSyncErrorHandler(f), done, command, command_state, previous_run, stop_timer, on_end, on_end_restart, error_handler, spawn_hook, env),
+        Control::SetAsyncErrorHandler(f) => control_handler_hooks(Control::SetAsyncErrorHandler(f), done, command, command_state, previous_run, stop_timer, on_end, on_end_restart, error_handler, spawn_hook, env),
+        Control::UnsetErrorHandler => control_handler_hooks(Control::UnsetErrorHandler, done, command, command_state, previous_run, stop_timer, on_end, on_end_restart, error_handler, spawn_hook, env),
+    }
+}
+
+// ---- the job task itself: the body of `tokio::spawn(async move { .. })` in start_job, with the two handler blocks outlined (R14)
+// into calls of the functions proved above and select! desugared with guard, refutable pattern and else arm (R6b) ----
+//@ item job_task
+//@ header
+#[verifier::exec_allows_no_decreases_clause]
+fn job_task(command: ArcCommand, mut receiver: PriorityReceiver, done: Flag, env: &mut Env)
+    requires
+        wf_rx(&receiver), old(env).live@ =~= Set::<int>::empty(), senders_ok(old(env).urgent@, old(env).high@),
+    ensures
+        // when the job task ends (Delete, or every handle dropped and nothing running) the job's `gone` flag is raised, which resolves
+        // every outstanding ticket of the job (Ticket::poll watches job_gone)
+        final(env).raised@.contains(done.id), // OBL:C07.job_task.gone_raised_when_the_task_ends
+//@ loop 0
+invariant
+    wf_rx(&receiver),
+    inv_live(&command_state, env), // OBL:C04.job_task.at_most_one_live_child_at_every_iteration
+    inv_restart(stop_timer, on_end_restart, env), // OBL:C07.job_task.restart_ticket_covered_at_every_iteration
+    senders_ok(env.urgent@, env.high@),
+//@ end
 
 //@ item control_groups_cover
 //@ raw
